@@ -46,7 +46,7 @@ func (s *Server) DiscoveryRequest(req *pool.Message, address string, receiverFun
 	if len(token) == 0 {
 		return errors.New("invalid token")
 	}
-	c := s.conn()
+	c := s.conn(req.Context())
 	if c == nil {
 		return errors.New("server doesn't serve connection")
 	}
